@@ -333,6 +333,12 @@ func (oa *originAnalysis) originsOfVar(p *packages.Package, fd *ast.FuncDecl, v 
 			for i, l := range s.Lhs {
 				id, ok := ast.Unparen(l).(*ast.Ident)
 				if !ok {
+					// element store into a map or slice variable: m[k] = value
+					if ix, isIndex := ast.Unparen(l).(*ast.IndexExpr); isIndex {
+						if base, isIdent := ast.Unparen(ix.X).(*ast.Ident); isIdent && info.Uses[base] == v && len(s.Rhs) == len(s.Lhs) {
+							add(oa.originsOfExpr(ownerPkg, owner, s.Rhs[i], depth+1))
+						}
+					}
 					continue
 				}
 				obj := info.Defs[id]
